@@ -29,6 +29,17 @@ Ltac adg_cases16 H :=
   pose proof (adg_lt16_In _ H) as HI; cbn [In] in HI;
   repeat (destruct HI as [<-|HI]; [reflexivity|]); destruct HI.
 
+(* A translated colour function is option-valued when the Rust match can fall through in the model (16 arms over the ANSI
+   number: [None] above 15) and TOTAL when it ends in a catch-all (`_ => ..`, a last `return`-less value): which of the two is the
+   maintainers' spelling, not behaviour.  The lemmas read the translation as an option either way ([adg_as_option], under a cast
+   to the option type: the term itself when it is one, [Some] of it otherwise -- for the 16-arm match the statement is the term
+   it always was), and [adg_rw] rewrites with such a lemma whether the caller holds [g i] or [Some (g i)]. *)
+Ltac adg_as_option t := first [ exact t | exact (Some t) ].
+Ltac adg_rw E :=
+  let E' := fresh "E" in
+  pose proof E as E';
+  first [ rewrite E' | injection E' as E'; rewrite E' ]; clear E'.
+
 (* ---- bit sets --------------------------------------------------------------- *)
 
 (* bitflags `contains` of a one-bit constant = the bit test of the hand model *)
@@ -101,7 +112,7 @@ Lemma g_at_xterm_to_ansi_color_eq n : g_at_xterm_to_ansi_color n = AdFixed n.
 Proof. reflexivity. Qed.
 
 Lemma g_at_ansi_to_ansi_color_eq i : i < 16 ->
-  g_at_ansi_to_ansi_color i =
+  (ltac:(adg_as_option (g_at_ansi_to_ansi_color i)) : option (ad_tcolor * bool)) =
   Some (let p := ad_arm ([], false) ad_gen_ansi_term_colors i in (AdNamed (fst p), snd p)).
 Proof. intros H. adg_cases16 H. Qed.
 
@@ -109,7 +120,7 @@ Lemma g_at_to_ansi_color_eq c : ad_colour_ok (Some c) ->
   g_at_to_ansi_color (ad_color_of c) = Some (ad_at_colour c).
 Proof.
   destruct c as [i|n|r g b]; cbn [ad_colour_ok ad_color_of]; intros H; unfold g_at_to_ansi_color; [|reflexivity..].
-  rewrite (g_at_ansi_to_ansi_color_eq i H). reflexivity.
+  adg_rw (g_at_ansi_to_ansi_color_eq i H). reflexivity.
 Qed.
 
 Theorem g_to_ansi_term_eq s : ad_src_ok s -> g_to_ansi_term s = Some (ad_to_ansi_term s).
@@ -133,14 +144,14 @@ Lemma g_ct_xterm_to_ansi_color_eq n : g_ct_xterm_to_ansi_color n = AdFixed n.
 Proof. reflexivity. Qed.
 
 Lemma g_ct_ansi_to_ansi_color_eq i : i < 16 ->
-  g_ct_ansi_to_ansi_color i = Some (AdNamed (ad_arm [] ad_gen_crossterm_colors i)).
+  (ltac:(adg_as_option (g_ct_ansi_to_ansi_color i)) : option ad_tcolor) = Some (AdNamed (ad_arm [] ad_gen_crossterm_colors i)).
 Proof. intros H. adg_cases16 H. Qed.
 
 Lemma g_ct_to_ansi_color_eq c : ad_colour_ok (Some c) ->
   g_ct_to_ansi_color (ad_color_of c) = Some (ad_conv_colour ad_gen_crossterm_colors c).
 Proof.
   destruct c as [i|n|r g b]; cbn [ad_colour_ok ad_color_of]; intros H; unfold g_ct_to_ansi_color; [|reflexivity..].
-  rewrite (g_ct_ansi_to_ansi_color_eq i H). reflexivity.
+  adg_rw (g_ct_ansi_to_ansi_color_eq i H). reflexivity.
 Qed.
 
 Theorem g_to_crossterm_eq s : ad_src_ok s -> g_to_crossterm s = Some (ad_to_crossterm s).
@@ -162,14 +173,14 @@ Lemma g_owo_xterm_to_owo_colors_color_eq n : g_owo_xterm_to_owo_colors_color n =
 Proof. reflexivity. Qed.
 
 Lemma g_owo_ansi_to_owo_colors_color_eq i : i < 16 ->
-  g_owo_ansi_to_owo_colors_color i = Some (ad_arm [] ad_gen_owo_colors i).
+  (ltac:(adg_as_option (g_owo_ansi_to_owo_colors_color i)) : option (list N)) = Some (ad_arm [] ad_gen_owo_colors i).
 Proof. intros H. adg_cases16 H. Qed.
 
 Lemma g_to_owo_colors_eq c : ad_colour_ok (Some c) ->
   g_to_owo_colors (ad_color_of c) = Some (ad_conv_colour ad_gen_owo_colors c).
 Proof.
   destruct c as [i|n|r g b]; cbn [ad_colour_ok ad_color_of]; intros H; unfold g_to_owo_colors; [|reflexivity..].
-  rewrite (g_owo_ansi_to_owo_colors_color_eq i H). reflexivity.
+  adg_rw (g_owo_ansi_to_owo_colors_color_eq i H). reflexivity.
 Qed.
 
 Theorem g_to_owo_style_eq s : ad_src_ok s -> g_to_owo_style s = Some (ad_to_owo s).
@@ -192,14 +203,14 @@ Lemma g_tc_xterm_to_termcolor_color_eq n : g_tc_xterm_to_termcolor_color n = AdF
 Proof. reflexivity. Qed.
 
 Lemma g_tc_ansi_to_termcolor_color_eq i : i < 16 ->
-  g_tc_ansi_to_termcolor_color i = Some (AdNamed (ad_arm [] ad_gen_termcolor_colors i)).
+  (ltac:(adg_as_option (g_tc_ansi_to_termcolor_color i)) : option ad_tcolor) = Some (AdNamed (ad_arm [] ad_gen_termcolor_colors i)).
 Proof. intros H. adg_cases16 H. Qed.
 
 Lemma g_to_termcolor_color_eq c : ad_colour_ok (Some c) ->
   g_to_termcolor_color (ad_color_of c) = Some (ad_conv_colour ad_gen_termcolor_colors c).
 Proof.
   destruct c as [i|n|r g b]; cbn [ad_colour_ok ad_color_of]; intros H; unfold g_to_termcolor_color; [|reflexivity..].
-  rewrite (g_tc_ansi_to_termcolor_color_eq i H). reflexivity.
+  adg_rw (g_tc_ansi_to_termcolor_color_eq i H). reflexivity.
 Qed.
 
 (* `style.set_x(effects.contains(X))` on a ColorSpec: a flag that is set to false is REMOVED from the
@@ -224,14 +235,14 @@ Lemma g_ya_xterm_to_yansi_color_eq n : g_ya_xterm_to_yansi_color n = AdFixed n.
 Proof. reflexivity. Qed.
 
 Lemma g_ya_ansi_to_yansi_color_eq i : i < 16 ->
-  g_ya_ansi_to_yansi_color i = Some (AdNamed (ad_arm [] ad_gen_yansi_colors i)).
+  (ltac:(adg_as_option (g_ya_ansi_to_yansi_color i)) : option ad_tcolor) = Some (AdNamed (ad_arm [] ad_gen_yansi_colors i)).
 Proof. intros H. adg_cases16 H. Qed.
 
 Lemma g_to_yansi_color_eq c : ad_colour_ok (Some c) ->
   g_to_yansi_color (ad_color_of c) = Some (ad_conv_colour ad_gen_yansi_colors c).
 Proof.
   destruct c as [i|n|r g b]; cbn [ad_colour_ok ad_color_of]; intros H; unfold g_to_yansi_color; [|reflexivity..].
-  rewrite (g_ya_ansi_to_yansi_color_eq i H). reflexivity.
+  adg_rw (g_ya_ansi_to_yansi_color_eq i H). reflexivity.
 Qed.
 
 Theorem g_to_yansi_style_eq s : ad_src_ok s -> g_to_yansi_style s = Some (ad_to_yansi s).
